@@ -23,7 +23,23 @@ import (
 //
 // Genesis, migration and upgrade code is outside the claim (listed in the evidence): the
 // statement is about the running chain.
-func (e *Engine) writerClosure(pc *PropertyCheck, prop, module string) {
+func (e *Engine) writerClosure(pc *PropertyCheck, prop, module string, tables ...string) {
+	// with a table list, only writers of those tables (or of a table the static naming could
+	// not resolve) count as writers of the invariant's state
+	writes := func(set map[string]bool) bool {
+		if len(tables) == 0 {
+			return WritesModule(set, module)
+		}
+		if set["store:"+module] {
+			return true
+		}
+		for _, t := range tables {
+			if set["table:"+t] {
+				return true
+			}
+		}
+		return false
+	}
 	f := e.Frames()
 	cts := e.Env.Cfg.Contracts
 	outside := func(fn *ssa.Function) bool {
@@ -36,7 +52,7 @@ func (e *Engine) writerClosure(pc *PropertyCheck, prop, module string) {
 			return true
 		}
 		n := fn.Name()
-		return strings.Contains(n, "InitGenesis") || strings.Contains(n, "ExportGenesis") || strings.HasPrefix(n, "Migrate") || strings.Contains(strings.ToLower(n), "upgrade") || strings.HasPrefix(n, "V") && strings.Contains(n, "Migration")
+		return strings.Contains(n, "InitGenesis") || strings.Contains(n, "ExportGenesis") || strings.HasPrefix(n, "Migrate") || strings.Contains(strings.ToLower(n), "upgrade") || strings.Contains(n, "Migrat")
 	}
 	served := func(fn *ssa.Function) bool {
 		ct := cts[fn]
@@ -46,7 +62,7 @@ func (e *Engine) writerClosure(pc *PropertyCheck, prop, module string) {
 	// 1. primitive writers
 	prim := map[*ssa.Function]bool{}
 	for _, fn := range f.funcs {
-		if !f.direct[fn]["store:"+module] {
+		if !writes(f.direct[fn]) {
 			continue
 		}
 		root := rootFn(fn)
@@ -54,6 +70,12 @@ func (e *Engine) writerClosure(pc *PropertyCheck, prop, module string) {
 			continue
 		}
 		if outside(root) {
+			excluded = append(excluded, shortPkg(root)+"."+sym.FuncKey(root))
+			continue
+		}
+		if ct := cts[root]; ct != nil && ct.MigrationOnly {
+			// declared migration-only: shown unreachable from messages, blocks and hooks
+			e.migrationOnlyScan(pc, root, prop)
 			excluded = append(excluded, shortPkg(root)+"."+sym.FuncKey(root))
 			continue
 		}
@@ -82,8 +104,8 @@ func (e *Engine) writerClosure(pc *PropertyCheck, prop, module string) {
 	}
 	var under []*ssa.Function
 	for fn, ct := range cts {
-		if contractServes(ct, prop) && moduleOf(pkgOfFn(fn)) == module {
-			under = append(under, fn)
+		if contractServes(ct, prop) {
+			under = append(under, fn) // callers are followed across modules
 		}
 	}
 	sort.Slice(under, func(i, j int) bool { return under[i].String() < under[j].String() })
@@ -95,7 +117,11 @@ func (e *Engine) writerClosure(pc *PropertyCheck, prop, module string) {
 			entries = append(entries, key)
 			continue
 		}
-		if ct.Reader || !f.closure[fn]["store:"+module] {
+		if ct.CallersAssumed != "" {
+			pc.Assumed = append(pc.Assumed, "preconditions of "+key+" assumed at its call sites (callers not under contract): "+ct.CallersAssumed)
+			continue
+		}
+		if ct.Reader || !writes(f.closure[fn]) {
 			continue // cannot write the module's store (call-graph frame inference)
 		}
 		var bad, ok []string
